@@ -43,7 +43,7 @@ Proof. vm_compute. reflexivity. Qed.
 
 (* the test servers' buffers *)
 Theorem tie_http_server_min_buffer :
-  hs_bufsize (get_http (fst (http_read 0 (set_http w1 0 (mkHttp 1 [] 0 false true [] [])))) 0) = c_http_server_min_buffer.
+  hs_bufsize (get_http (fst (http_read 0 (set_http w1 0 (mkHttp 1 [] 0 false true [] [] false)))) 0) = c_http_server_min_buffer.
 Proof. vm_compute. reflexivity. Qed.
 
 Theorem tie_socks_first_bind_port :
